@@ -37,7 +37,9 @@ Definition entry := list child.
 (** transition_column: nn -> (nrefined, irange) -> children *)
 Definition ttable := list (nat * list ((nat * nat) * entry)).
 (** decompose_column special cases: (nn, number of straight nodes, distance d if tested) *)
-Inductive start_rule := StraightFirst | StartAfterGap.
+(** StartAfterGapIf ds: as StartAfterGap, but the subdivision is used only if the nodes at
+    start + d (d in ds) are straight too; otherwise triangulate_column (the fan) *)
+Inductive start_rule := StraightFirst | StartAfterGap | StartAfterGapIf (ds : list nat).
 Definition dtable := list ((nat * nat * option nat) * start_rule * entry).
 
 Definition origin : pt := (0, 0).
